@@ -778,7 +778,7 @@ func (f *Frame) safety(kind, cond string, pos token.Pos) {
 	if lvl == "none" {
 		return
 	}
-	if (kind == "nil-deref" || kind == "nil-call") && lvl != "all" {
+	if (kind == "nil-deref" && lvl != "all") || (kind == "nil-call" && lvl != "all" && lvl != "iface") {
 		f.vc.used["A-NONNIL"] = true
 		f.vc.assume(implies(f.curReach, cond))
 		return
